@@ -278,6 +278,21 @@ CHECKS.update({
     ),
 })
 
+CHECKS.update({
+    "C20": (
+        "model_checking",
+        "enumerator",
+        "explicit-state breadth-first search over ZeroconfManager operation histories (construct with nothing/async/sync instance, set instance, get, "
+        "resolve ok/error/cancelled/creation failure, close) on the real code with canonical-state deduplication and ownership invariants evaluated "
+        "in every state; plus exhaustive enumeration of address lists (length 1-3/4 over 7 address forms) x per-host mDNS answers x per-host OS "
+        "answers through the real async_resolve_host with poisoned lookup fakes, compared with a reference resolver",
+        "The resolution matrix is finite and enumerated completely for the stated list lengths; ownership histories are explored breadth-first "
+        "to the stated depth with every reachable canonical state visited.",
+        BASE,
+        "DESIGN.md §3 C20",
+    ),
+})
+
 NOT_APPLICABLE: dict[str, str] = {}
 
 
